@@ -64,6 +64,7 @@ func scenarios(m *mon.M, r *rand.Rand) []scenario {
 		{name: "contract-byte1-quai", blocks: n + 12, lockByte: 1, pref: quaiOnly, contract: true, deployAt: 14},
 		{name: "contract-byte0-mixed-ledgers-shares", blocks: n + 12, lockByte: 0, pref: 0.35, contract: true, deployAt: 12, shares: 1, crafted: true},
 		{name: "contract-byte2-shares-reorg", blocks: n + 12, lockByte: 2, pref: 0.2, contract: true, deployAt: 10, shares: 2, crafted: true, flip: true, noRevert: true, reorgAt: 46},
+		{name: "contract-byte1-flip-reorg", blocks: n + 4, lockByte: 1, pref: quaiOnly, contract: true, deployAt: 8, shares: 1, crafted: true, flip: true, noRevert: true, reorgAt: 34},
 		{name: "contract-byte3-quai", blocks: n + 16, lockByte: 3, pref: quaiOnly, contract: true, deployAt: 9},
 	}
 	if !m.Thorough() {
@@ -430,11 +431,12 @@ func TestC13(t *testing.T) {
 	m := mon.New(t, "C13", "rewards")
 	defer m.Finish()
 	compressRewardSchedule()
-	m.Rule("hnet histories (8 nets quick: plain / contract layout x miner lockup byte 0-3, Quai-only and mixed Quai/Qi coinbases, ground work shares of the miner and crafted shares of other Quai/Qi miners with every lockup byte and layout incl. delegate and malformed, Qi<->Quai conversions, owner-contract deployment and claim scripts, one fork per reorg net). After EVERY executed block (both branches of a fork) an ancestry-based RewardBook is evaluated: " +
+	m.Rule("hnet histories (9 nets quick: plain / contract layout x miner lockup byte 0-3, Quai-only and mixed Quai/Qi coinbases, ground work shares of the miner and crafted shares of other Quai/Qi miners with every lockup byte and layout incl. delegate and malformed, Qi<->Quai conversions, owner-contract deployment and claim scripts, one fork per reorg net). After EVERY executed block (both branches of a fork) an ancestry-based RewardBook is evaluated: " +
 		"(1) coinbase ETXs of block N name only the block N-3 or shares of that height included in N-3..N, pay the share's coinbase with the share's data, Σ ≤ CalculateQuaiReward(target)+AvgTxFees+TotalFees/2 (Qi parts via QuaiToQi), exactly that amount when there are no shares; no share rewarded twice on a chain; " +
 		"(2) no uncle hash twice on a chain, a block repeating an uncle is rejected; " +
 		"(3) every delivered coinbase/claim ETX was emitted by an ancestor and is delivered once per chain; balance delta of silent watched accounts (miner, share miner, conversion recipient, claim recipient) == Σ plain rewards included depth[byte] blocks earlier in the ancestry, adjusted by CalculateCoinbaseValueWithLockup at the crediting height, + conversions included ConversionLockPeriod earlier, − account-creation fee for a new account, + arriving claim ETXs; Qi coinbases: outputs keyed by the ETX hash have Lock = height+depth, owner = miner, Σ ≤ adjusted value; locked outputs never inputs below their lock, never spent twice; " +
-		"(4) model of (contract, miner, byte, epoch) records == scan of the 'cl' key space after every block; claims succeed only for the owner, epoch < latest, tranche height reached, once, for exactly the balance; failed claims change nothing. distinct = ETX hashes / block hashes")
+		"(4) model of (contract, miner, byte, epoch) records == scan of the 'cl' key space after every block; claims succeed only for the owner, epoch < latest, tranche height reached, once, for exactly the balance; failed claims change nothing; " +
+		"(5) reorg nets: fork at a prime-order head (its ETXs are delivered on both branches), records after the rollback == model of the fork block, and a fresh hierarchy fed only the winning chain accepts every block and holds the same records. distinct = ETX hashes / block hashes")
 	m.Assume("protocol timeline compressed (hnet.DefaultRegime; additionally BlocksPerMonth=6, BlocksPerYear=40 so that lockup multipliers are active and height dependent): behaviour assumed parametric in these constants",
 		"formula helpers params.CalculateCoinbaseValueWithLockup, misc.CalculateQuaiReward, misc.QuaiToQi, params.CallNewAccountGas are trusted",
 		"the lockup-adjusted amount of a plain Quai reward is evaluated with the schedule of its unlock height (the crediting block), of a Qi reward / contract-held reward with the schedule of its inclusion height",
@@ -451,5 +453,5 @@ func TestC13(t *testing.T) {
 	m.Need("emission:single-share:quai", "credited:coinbase:byte0:miner", "credited:coinbase:byte1:miner", "credited:coinbase:byte2:miner", "credited:coinbase:byte3:miner",
 		"lockup-record-matches", "credited:qi-to-quai-conversion:new-account:conversion-recipient", "credited:qi-to-quai-conversion:conversion-recipient",
 		"credited:claim-etx:claim-recipient", "claim-refused:latest-epoch", "claim-refused:non-owner", "claim-refused:before-tranche-height", "claim-refused:no-record",
-		"emission:with-shares:all-rewarded", "reorg-across-unlock-heights", "reorg-across-lockup-accumulation", "block-repeating-uncle:same-block", "claim-in-failing-tx", "claim:owner-after-unlock:paid-exact-balance-once", "share-resubmitted-after-inclusion", "early-spend-of-locked-output:refused-by-pool", "qi-reward-output-spent:after-lock")
+		"emission:with-shares:all-rewarded", "reorg-across-unlock-heights", "reorg-across-lockup-accumulation", "rollback:lockup-record-compared", "reorged-vs-fresh-node:lockup-records", "block-repeating-uncle:same-block", "claim-in-failing-tx", "claim:owner-after-unlock:paid-exact-balance-once", "share-resubmitted-after-inclusion", "early-spend-of-locked-output:refused-by-pool", "qi-reward-output-spent:after-lock")
 }
